@@ -130,7 +130,11 @@ func (gn *graphNode) compileIfNeeded(ctx context.Context) (*composableRunnable, 
 		r = cr
 		gn.cr = cr
 	} else if gn.cr != nil {
-		r = gn.cr
+		// the executor may be shared with other nodes (one Lambda added under several keys):
+		// meta and nodeInfo are per node, so this node works on its own copy
+		cr := *gn.cr
+		r = &cr
+		gn.cr = r
 	} else {
 		return nil, errors.New("no graph or component provided")
 	}
